@@ -16,8 +16,8 @@ PID = "C26"
 SHARDS = {"quick": 8, "thorough": 16}
 CFG = {"mode": "strict", "extra": True, "twice": False}
 
-PIECES = ["%", "%%", "%s", "%(x)s", "%(y)s", "%(", "(", ")", " ", "\n", "a", "b", "<", "100", "% ", "%d", "s"]
-COUNTS = [None, -1, 0, 1, 2, 10**30, "2", "1"]
+PIECES = ["%", "%%", "%s", "%(x)s", "%(y)s", "%(", "(", ")", " ", "\n", "a", "b", "<", "100", "% ", "%d", "s", "%(count)s"]
+COUNTS = [None, -1, 0, 1, 2, 10**30, "2", "1", 2.5, "007", 1.0]
 VARS = {"x": "X1", "y": 7}
 NULL = gettext.NullTranslations()
 
@@ -28,10 +28,13 @@ def _count_int(c):
     return int(c)
 
 
-def _expected_texts(msg: str) -> set:
+def _expected_texts(msg: str, extra: dict | None = None) -> set:
     """Message with %(name)s replaced; %% accepted as %% or %."""
+    known = dict(VARS)
+    known.update(extra or {})
+
     def sub(m):
-        return str(VARS[m.group(1)])
+        return str(known[m.group(1)])
 
     # placeholders are found left to right; a literal %% consumes both characters
     out_keep, out_collapse = [], []
@@ -45,7 +48,7 @@ def _expected_texts(msg: str) -> set:
         m = re.compile(r"%\((\w+)\)s").match(msg, i)
         if m:
             # a placeholder naming a variable that does not exist renders as the (default) undefined value: nothing
-            val = sub(m) if m.group(1) in VARS else ""
+            val = sub(m) if m.group(1) in known else ""
             out_keep.append(val)
             out_collapse.append(val)
             i = m.end()
@@ -138,7 +141,9 @@ def evaluate(case) -> Verdict:
             chosen = NULL.ngettext(msg, plural, n)
         else:
             raise core.HarnessError(kind)
-        want = _expected_texts(chosen)
+        # the t filter's keyword arguments are message variables: %(count)s is the count exactly as it was passed
+        extra = {"count": count} if kind == "t" and count is not None else None
+        want = _expected_texts(chosen, extra)
         norm = lambda s: s  # noqa: E731
 
     o = oc.outcome_of(lambda: env.from_string(src).render(**data))
@@ -161,7 +166,7 @@ def _alts(msg, plural, kind) -> set:
         if kind == "tag":
             out.add(_ws(re.sub(r"%\((x|y)\)s", lambda mm: str(VARS[mm.group(1)]), m)))
         else:
-            out |= _expected_texts(m)
+            out |= _expected_texts(m) | _expected_texts(m, {"count": "?"})
     return out
 
 
@@ -199,7 +204,8 @@ def finish_kwargs(ctx: core.Ctx, tier: str) -> dict:
         "rule": (
             "Messages of 1-6 pieces over {%, %%, %s, %(x)s, %(y)s, %(, (, ), space, newline, letters, <, %d} for the "
             "translate tag (singular/plural bodies, count, context) and the t, gettext, ngettext, pgettext, npgettext "
-            "filters (message as literal and as variable); count in {absent, -1, 0, 1, 2, 1e30, '2', '1'}; extra "
+            "filters (message as literal and as variable); count in {absent, -1, 0, 1, 2, 1e30, '2', '1', 2.5, '007', "
+            "1.0} (the t filter's %(count)s is the count as passed); extra "
             "environment, no catalogue. Expected = message with %(name)s replaced, %% kept or collapsed, tag output "
             "compared modulo whitespace runs; plural form chosen by gettext.NullTranslations. Non-trivial = a % "
             "that is not part of a placeholder, or a plural form selected with count != 1."
